@@ -49,6 +49,20 @@ AtomicMove<SlotType, BUFFER_SIZE> {
         // if !BUFFER_SIZE.is_power_of_two() {
         //     panic!("FullSyncMeta: BUFFER_SIZE must be a power of 2, but {BUFFER_SIZE} was provided.");
         // }
+        #[cfg(feature = "verif")]
+        {
+            // verification hook: sequence counters may start anywhere (see `crate::verif::sequence_origin()`)
+            let origin = crate::verif::sequence_origin();
+            if origin != 0 {
+                return Self {
+                    head:                 CachePadded::new(AtomicU32::new(origin)),
+                    tail:                 CachePadded::new(AtomicU32::new(origin)),
+                    dequeuer_head:        CachePadded::new(AtomicU32::new(origin)),
+                    enqueuer_tail:        CachePadded::new(AtomicU32::new(origin)),
+                    buffer:               UnsafeCell::new(Box::pin([0; BUFFER_SIZE].map(|_| ManuallyDrop::new(slot_initializer())))),
+                }
+            }
+        }
         Self {
             head:                 CachePadded::new(AtomicU32::new(0)),
             tail:                 CachePadded::new(AtomicU32::new(0)),
@@ -99,6 +113,7 @@ AtomicMove<SlotType, BUFFER_SIZE> {
 
     #[inline(always)]
     fn available_elements_count(&self) -> usize {
+        #[cfg(feature = "verif")] crate::verif::yield_point();
         self.tail.load(Relaxed).overflowing_sub(self.head.load(Relaxed)).0 as usize
     }
 
@@ -164,6 +179,12 @@ impl<'a, SlotType:          'a + Debug + Default,
          const BUFFER_SIZE: usize>
 AtomicMove<SlotType, BUFFER_SIZE> {
 
+    #[cfg(feature = "verif")]
+    pub fn verif_set_origin(&self, origin: u32) {
+        self.head.store(origin, Relaxed); self.tail.store(origin, Relaxed);
+        self.dequeuer_head.store(origin, Relaxed); self.enqueuer_tail.store(origin, Relaxed);
+    }
+
     /// The ring buffer is required to be a power of 2, so `head` and `tail` may wrap over flawlessly
     const BUFFER_SIZE_MUST_BE_A_POWER_OF_2: bool = usize::MAX / if BUFFER_SIZE.is_power_of_two() {1} else {0} > 0;
 
@@ -177,9 +198,11 @@ AtomicMove<SlotType, BUFFER_SIZE> {
     #[inline(always)]
     pub fn leak_slot_internal(&self, report_full_fn: impl Fn() -> bool) -> Option<(&mut SlotType, /*slot_id:*/ u32, /*len_before:*/ u32)> {
         let mutable_buffer = unsafe { &mut * (self.buffer.get() as *mut Box<[SlotType; BUFFER_SIZE]>) };
+        #[cfg(feature = "verif")] crate::verif::yield_point();
         let mut slot_id = self.enqueuer_tail.fetch_add(1, Relaxed);
         let mut len_before;
         loop {
+            #[cfg(feature = "verif")] crate::verif::yield_point();
             let head = self.head.load(Relaxed);
             len_before = slot_id.overflowing_sub(head).0;
             // is queue not full?
@@ -190,6 +213,7 @@ AtomicMove<SlotType, BUFFER_SIZE> {
                 if self.try_unleak_slot_internal(slot_id) {
                     // report the queue is full (allowing a retry) if the method says we recovered from the condition
                     if report_full_fn() {
+                        #[cfg(feature = "verif")] crate::verif::yield_point();
                         slot_id = self.enqueuer_tail.fetch_add(1, Relaxed);
                     } else {
                         return None;
@@ -219,6 +243,7 @@ AtomicMove<SlotType, BUFFER_SIZE> {
     /// Equivalent to [Self::publish_leaked_internal()], but without spinning
     /// (suitable for use by operations that cannot guarantee that `slot_id` will progress sequentially).
     pub fn try_publish_leaked_internal(&'a self, slot_id: u32) -> bool {
+        #[cfg(feature = "verif")] crate::verif::yield_point();
         match self.tail.compare_exchange_weak(slot_id, slot_id.overflowing_add(1).0, Release, Relaxed) {
             Ok(_) => true,
             Err(_reloaded_tail) => {
@@ -234,6 +259,7 @@ AtomicMove<SlotType, BUFFER_SIZE> {
     pub fn try_publish_leaked_internal_index(&'a self, slot_index: u32) -> Option<NonZeroU32> {
         let mut slot_id = slot_index;
         loop {
+            #[cfg(feature = "verif")] crate::verif::yield_point();
             match self.tail.compare_exchange_weak(slot_id, slot_id.overflowing_add(1).0, Release, Relaxed) {
                 Ok(new_tail) => break NonZeroU32::new(u32::max(1, new_tail.overflowing_sub(self.head.load(Relaxed)).0)),
                 Err(reloaded_tail) => {
@@ -256,6 +282,7 @@ AtomicMove<SlotType, BUFFER_SIZE> {
     /// IMPORTANT: for this channel, the reserve cancellation (unleaking) must be done in the reversed order.
     #[inline(always)]
     fn try_unleak_slot_internal(&'a self, slot_id: u32) -> bool {
+        #[cfg(feature = "verif")] crate::verif::yield_point();
         match self.enqueuer_tail.compare_exchange_weak(slot_id.overflowing_add(1).0, slot_id, Release, Relaxed) {
             Ok(_) => true,
             Err(_reloaded_enqueuer_tail) => {
@@ -270,6 +297,7 @@ AtomicMove<SlotType, BUFFER_SIZE> {
     pub fn try_unleak_slot_index_internal(&'a self, slot_index: u32) -> bool {
         let mut slot_id = slot_index;
         loop {
+            #[cfg(feature = "verif")] crate::verif::yield_point();
             match self.enqueuer_tail.compare_exchange_weak(slot_id.overflowing_add(1).0, slot_id, Release, Relaxed) {
                 Ok(_) => break true,
                 Err(reloaded_enqueuer_tail) => {
@@ -294,9 +322,11 @@ AtomicMove<SlotType, BUFFER_SIZE> {
     fn consume_leaking_internal(&self, report_empty_fn: impl Fn() -> bool) -> Option<(&'a mut SlotType, /*slot_id:*/ u32, /*len_before:*/ i32)> {
         let mutable_buffer = unsafe { &mut * (self.buffer.get() as *mut Box<[SlotType; BUFFER_SIZE]>) };
 
+        #[cfg(feature = "verif")] crate::verif::yield_point();
         let mut slot_id = self.dequeuer_head.fetch_add(1, Relaxed);
         let mut len_before;
         loop {
+            #[cfg(feature = "verif")] crate::verif::yield_point();
             let tail = self.tail.load(Relaxed);
             len_before = tail.overflowing_sub(slot_id).0 as i32;
             // queue has elements?
@@ -305,11 +335,13 @@ AtomicMove<SlotType, BUFFER_SIZE> {
                 break Some( (slot_value, slot_id, len_before) )
             } else {
                 // queue is empty: reestablish the correct `dequeuer_head` (receding it to its original value)
+                #[cfg(feature = "verif")] crate::verif::yield_point();
                 match self.dequeuer_head.compare_exchange_weak(slot_id.overflowing_add(1).0, slot_id, Relaxed, Relaxed) {
                     Ok(_) => {
                         if !report_empty_fn() {
                             return None;
                         } else {
+                            #[cfg(feature = "verif")] crate::verif::yield_point();
                             slot_id = self.dequeuer_head.fetch_add(1, Relaxed);
                         }
                     },
@@ -326,6 +358,7 @@ AtomicMove<SlotType, BUFFER_SIZE> {
     #[inline(always)]
     pub fn release_leaked_internal(&self, slot_id: u32) {
         loop {
+            #[cfg(feature = "verif")] crate::verif::yield_point();
             match self.head.compare_exchange_weak(slot_id, slot_id.overflowing_add(1).0, Relaxed, Relaxed) {
                 Ok(_) => break,
                 Err(_reloaded_head) => {
